@@ -97,6 +97,8 @@ def judgeEtc (alpha : Bool) (w h : Nat) (payload out : Buf) : String := Id.run d
         let a := alphaNibble (alphaWordAt payload w alpha x y) (x % 4) (y % 4)
         if ¬ Spec.Linear.withinStep 4 a (out.getD (o + 3) 0).toNat then
           return s!"FAIL pixel ({x},{y}) alpha = {(out.getD (o + 3) 0).toNat}, nibble {a}"
+      else if (out.getD (o + 3) 0).toNat ≠ 255 then
+        return s!"FAIL pixel ({x},{y}) alpha = {(out.getD (o + 3) 0).toNat}, ETC1 without alpha is opaque"
   return "ok"
 
 open Spec.Linear in
